@@ -185,10 +185,13 @@ class AMF:
         ies=[ie_named(t,10,0,ue.amf),ie_named(t,85,0,ue.ran)]
         s.n_dlnas=getattr(s,'n_dlnas',0)+1
         k=s.n_dlnas%4
-        if k in (1,3): ies.append(ie_named(t,48,0,OS(b'amf-old')))
+        if k in (1,3): ies.append(ie_named(t,48,0,OS(b'amf-old' if s.n_dlnas%8!=3 else ('amf-'+'x'*146).encode())))
         if k in (2,3): ies.append(ie_named(t,83,1,5))
         ies.append(ie_named(t,38,0,OS(nas)))
         if k==3: ies.append(ie_named(t,31,1,7))
+        if s.n_dlnas%8==3:
+            # ... with the 150-character Old AMF name and an Allowed NSSAI of 8 slices the message exceeds 255 octets
+            ies.append(ie_named(t,0,0,{'List':[{'SNSSAI':{'SST':OS(bytes([1+j])),'SD':OS(bytes([j,2,3]))}} for j in range(8)]}))
         return mk_pdu(1,4,1,None,ies)
     def ue_of(s,ids,D,crit):
         need(ids[:2]==[(10,crit),(85,crit)],f'UE ids / criticality {ids[:2]}')
@@ -220,8 +223,15 @@ class AMF:
                  ie_named(t,28,0,guami),
                  ie_named(t,0,0,{'List':[{'SNSSAI':{'SST':OS(b'\x01'),'SD':OS(b'\x01\x02\x03')}}]}),
                  ie_named(t,119,0,{'NRencryptionAlgorithms':BS(b'\x80\x00',16),'NRintegrityProtectionAlgorithms':BS(b'\x20\x00',16),'EUTRAencryptionAlgorithms':BS(b'\x00\x00',16),'EUTRAintegrityProtectionAlgorithms':BS(b'\x00\x00',16)}),
-                 ie_named(t,94,0,BS(bytes(32),256)),
-                 ie_named(t,38,1,OS(s.protect(ue,ra,2)))]
+                 ie_named(t,94,0,BS(bytes(32),256))]
+            # optional IEs a real AMF may add (TS 38.413 9.2.2.1), in ASN.1 order; every third request carries a UE radio capability
+            # of 300 octets, which takes the message and two of its length determinants beyond 255
+            s.n_ics=getattr(s,'n_ics',0)+1
+            if s.n_ics%3==1: ies.append(ie_named(t,117,1,OS(bytes(s.R.randrange(256) for _ in range(300)))))
+            if s.n_ics%3==2:
+                ies.insert(2,ie_named(t,48,0,OS(('amf-'+'o'*146).encode())))
+                ies.append(ie_named(t,34,1,BS(bytes(s.R.randrange(256) for _ in range(8)),64)))
+            ies.append(ie_named(t,38,1,OS(s.protect(ue,ra,2))))
             return [mk_pdu(1,14,0,None,ies)]
         if ue.state=='regcomplete':
             inner=s.unprotect(ue,nas,{2}); need(inner[:3]==bytes([0x7e,0,0x43]),'Registration Complete expected')
